@@ -41,6 +41,33 @@ Definition exds := [mkPd 4 2 8 11 21; mkPd 15 14 18 19 21]%nat.
 Ltac line_ok := repeat split; try discriminate; try reflexivity; repeat constructor.
 Ltac nodef_ok := repeat constructor.
 
+(* the clause of head_at about adjacent tokens, decided *)
+Fixpoint adj_b (c : Z) (l : list token) : bool :=
+  match l with
+  | a :: r => match r with
+              | b :: _ => (t_line a <=? t_line b) && (negb (t_line a <? t_line b) || (c <? t_col b)) && adj_b c r
+              | [] => true
+              end
+  | [] => true
+  end.
+Lemma adj_b_sound c : forall l, adj_b c l = true ->
+  forall i a b, nth_error l i = Some a -> nth_error l (S i) = Some b ->
+    t_line a <= t_line b /\ (t_line a < t_line b -> c < t_col b).
+Proof.
+  induction l as [|x l IH]; intros H i a b Ha Hb; [destruct i; discriminate|].
+  destruct l as [|y l]; [destruct i; discriminate|].
+  cbn [adj_b] in H. apply andb_prop in H as [H H3]. apply andb_prop in H as [H1 H2].
+  destruct i as [|i].
+  - cbn [nth_error] in Ha, Hb. injection Ha as <-. injection Hb as <-.
+    apply Z.leb_le in H1. split; [exact H1|]. intros Hlt. apply orb_prop in H2 as [H2|H2].
+    + apply negb_true_iff in H2. apply Z.ltb_ge in H2. lia.
+    + apply Z.ltb_lt in H2. exact H2.
+  - exact (IH H3 i a b Ha Hb).
+Qed.
+Ltac head_ok :=
+  split; [discriminate|]; split; [reflexivity|]; split; [reflexivity|]; split; [reflexivity|];
+  split; [apply adj_b_sound; reflexivity|]; split; [repeat constructor | reflexivity].
+
 Example ex_canonical : py_canonical_program ex exds.
 Proof.
   exists 1, 0, 6. unfold ex, exds.
@@ -58,20 +85,20 @@ Proof.
     [mkTok KName [121] 6 1; mkTok KOperator [61] 6 3; mkTok KOther [50] 6 5] [] 6).
   - apply (pe_def 1 2%nat 1
       [mkTok KKeyword s_async 2 1; mkTok KKeyword s_def 2 7; mkTok KName [102] 2 11; mkTok KPunct [40] 2 12; mkTok KName [97] 2 13; mkTok KPunct [41] 2 14; mkTok KOperator [45;62] 2 16; mkTok KName [84] 2 19; mkTok KPunct [58] 2 20]
-      2 2%nat 6%nat 5
+      2 2 2%nat 6%nat 5
       [mkTok KName [120] 3 5; mkTok KOperator [61] 3 7; mkTok KOther [49] 3 9;
        mkTok KKeyword s_def 4 5; mkTok KName [103] 4 9; mkTok KPunct [40] 4 10; mkTok KPunct [41] 4 11; mkTok KPunct [58] 4 12;
        mkTok KKeyword [114] 5 9; mkTok KName [120] 5 16]
       [mkPd 15 14 18 19 21]%nat 5).
-    + line_ok.
+    + head_ok.
     + lia.
-    + apply (dl_async (mkTok KKeyword s_async 2 1) (mkTok KKeyword s_def 2 7) (mkTok KName [102] 2 11)
+    + apply (dl_async 2 (mkTok KKeyword s_async 2 1) (mkTok KKeyword s_def 2 7) (mkTok KName [102] 2 11)
                [mkTok KPunct [40] 2 12; mkTok KName [97] 2 13; mkTok KPunct [41] 2 14]
                [mkTok KOperator [45;62] 2 16; mkTok KName [84] 2 19; mkTok KPunct [58] 2 20]);
-        [reflexivity | reflexivity | reflexivity | | nodef_ok | discriminate | reflexivity | nodef_ok].
-      apply groups_one.
-      apply (group_intro (mkTok KPunct [40] 2 12) [mkTok KName [97] 2 13] (mkTok KPunct [41] 2 14));
-        [reflexivity | apply inner_plain; [reflexivity | constructor] | reflexivity].
+        [reflexivity | reflexivity | reflexivity | | nodef_ok | discriminate | reflexivity | nodef_ok | repeat constructor].
+      apply pgroups_one.
+      apply (pgroup_intro (mkTok KPunct [40] 2 12) [mkTok KName [97] 2 13] (mkTok KPunct [41] 2 14));
+        [reflexivity | apply pinner_plain; [reflexivity | constructor] | reflexivity].
     + lia.
     + cbn [length Nat.add].
       (* the suite of f: line 3, then def g (lines 4-5) *)
@@ -83,14 +110,14 @@ Proof.
       * cbn [length Nat.add]. apply pb_one.
         apply (pe_def 5 14%nat 3
                  [mkTok KKeyword s_def 4 5; mkTok KName [103] 4 9; mkTok KPunct [40] 4 10; mkTok KPunct [41] 4 11; mkTok KPunct [58] 4 12]
-                 4 1%nat 4%nat 9 [mkTok KKeyword [114] 5 9; mkTok KName [120] 5 16] [] 5).
-        -- line_ok.
+                 4 4 1%nat 4%nat 9 [mkTok KKeyword [114] 5 9; mkTok KName [120] 5 16] [] 5).
+        -- head_ok.
         -- lia.
-        -- apply (dl_def (mkTok KKeyword s_def 4 5) (mkTok KName [103] 4 9)
+        -- apply (dl_def 4 (mkTok KKeyword s_def 4 5) (mkTok KName [103] 4 9)
                     [mkTok KPunct [40] 4 10; mkTok KPunct [41] 4 11] [mkTok KPunct [58] 4 12]);
-             [reflexivity | reflexivity | | nodef_ok | discriminate | reflexivity | nodef_ok].
-           apply groups_one.
-           apply (group_intro (mkTok KPunct [40] 4 10) [] (mkTok KPunct [41] 4 11)); [reflexivity | constructor | reflexivity].
+             [reflexivity | reflexivity | | nodef_ok | discriminate | reflexivity | nodef_ok | repeat constructor].
+           apply pgroups_one.
+           apply (pgroup_intro (mkTok KPunct [40] 4 10) [] (mkTok KPunct [41] 4 11)); [reflexivity | constructor | reflexivity].
         -- lia.
         -- apply pb_one. apply pe_line; [line_ok | lia | nodef_ok].
   - cbn [length Nat.add]. apply pb_one. apply pe_line; [line_ok | lia | nodef_ok].
@@ -99,3 +126,64 @@ Qed.
 (* hence the hypotheses of C01_python_lexical hold for it *)
 Example ex_wf_lexical : py_wf_descs ex exds /\ py_lexically_canonical ex exds.
 Proof. split; [apply py_canonical_wf | apply py_canonical_lexical]; exact ex_canonical. Qed.
+
+(* a nested function whose header spans two physical lines and has a `{}` default value:
+   1: def f ( ) : / 2:     def g ( a = { } , / 3:           b ) : / 4:         return a / 5:     return g / 6: z = 1 *)
+Definition ex_f_head : list token :=
+ [mkTok KKeyword s_def 1 1; mkTok KName [102] 1 5; mkTok KPunct [40] 1 6; mkTok KPunct [41] 1 7; mkTok KPunct [58] 1 8].
+Definition ex_g_head : list token :=
+ [mkTok KKeyword s_def 2 5; mkTok KName [103] 2 9; mkTok KPunct [40] 2 11; mkTok KName [97] 2 13; mkTok KOperator [61] 2 15;
+  mkTok KPunct [123] 2 17; mkTok KPunct [125] 2 19; mkTok KPunct [44] 2 21;
+  mkTok KName [98] 3 11; mkTok KPunct [41] 3 13; mkTok KPunct [58] 3 15].
+Definition ex_g_suite : list token := [mkTok KKeyword [114] 4 9; mkTok KName [97] 4 16].
+Definition ex_f_tail : list token := [mkTok KKeyword [114] 5 5; mkTok KName [103] 5 12].
+Definition ex_last : list token := [mkTok KName [122] 6 1; mkTok KOperator [61] 6 3; mkTok KOther [49] 6 5].
+Definition ex2 : list token := (ex_f_head ++ (ex_g_head ++ ex_g_suite) ++ ex_f_tail) ++ ex_last.
+Definition ex2ds := [mkPd 1 0 4 5 20; mkPd 6 5 15 16 18]%nat.
+
+Example ex2_canonical : py_canonical_program ex2 ex2ds.
+Proof.
+  exists 1, 0, 6. unfold ex2, ex2ds.
+  apply (pb_more 1 0%nat 0 (ex_f_head ++ (ex_g_head ++ ex_g_suite) ++ ex_f_tail)
+           [mkPd 1 0 4 5 20; mkPd 6 5 15 16 18]%nat 5 ex_last [] 6).
+  - apply (pe_def 1 0%nat 0 ex_f_head 1 1 1%nat 4%nat 5 ((ex_g_head ++ ex_g_suite) ++ ex_f_tail)
+             [mkPd 6 5 15 16 18]%nat 5).
+    + head_ok.
+    + lia.
+    + apply (dl_def 1 (mkTok KKeyword s_def 1 1) (mkTok KName [102] 1 5)
+               [mkTok KPunct [40] 1 6; mkTok KPunct [41] 1 7] [mkTok KPunct [58] 1 8]);
+        [reflexivity | reflexivity | | nodef_ok | discriminate | reflexivity | nodef_ok | repeat constructor].
+      apply pgroups_one.
+      apply (pgroup_intro (mkTok KPunct [40] 1 6) [] (mkTok KPunct [41] 1 7)); [reflexivity | constructor | reflexivity].
+    + lia.
+    + (* the suite of f: def g over lines 2-3 with its suite (line 4), then line 5 *)
+      apply (pb_more 5 5%nat 1 (ex_g_head ++ ex_g_suite) [mkPd 6 5 15 16 18]%nat 4 ex_f_tail [] 5).
+      * apply (pe_def 5 5%nat 1 ex_g_head 2 3 1%nat 10%nat 9 ex_g_suite [] 4).
+        -- head_ok.
+        -- lia.
+        -- apply (dl_def 3 (mkTok KKeyword s_def 2 5) (mkTok KName [103] 2 9)
+                    [mkTok KPunct [40] 2 11; mkTok KName [97] 2 13; mkTok KOperator [61] 2 15;
+                     mkTok KPunct [123] 2 17; mkTok KPunct [125] 2 19; mkTok KPunct [44] 2 21;
+                     mkTok KName [98] 3 11; mkTok KPunct [41] 3 13]
+                    [mkTok KPunct [58] 3 15]);
+             [reflexivity | reflexivity | | nodef_ok | discriminate | reflexivity | nodef_ok | repeat constructor].
+           apply pgroups_one.
+           apply (pgroup_intro (mkTok KPunct [40] 2 11)
+                    [mkTok KName [97] 2 13; mkTok KOperator [61] 2 15; mkTok KPunct [123] 2 17; mkTok KPunct [125] 2 19;
+                     mkTok KPunct [44] 2 21; mkTok KName [98] 3 11]
+                    (mkTok KPunct [41] 3 13));
+             [reflexivity | repeat (apply pinner_plain; [reflexivity|]); apply pinner_nil | reflexivity].
+        -- lia.
+        -- apply pb_one. apply pe_line; [line_ok | lia | nodef_ok].
+      * apply pb_one. apply pe_line; [line_ok | lia | nodef_ok].
+  - apply pb_one. apply pe_line; [line_ok | lia | nodef_ok].
+Qed.
+
+Example ex2_wf_lexical : py_wf_descs ex2 ex2ds /\ py_lexically_canonical ex2 ex2ds.
+Proof. split; [apply py_canonical_wf | apply py_canonical_lexical]; exact ex2_canonical. Qed.
+
+(* the tool on this stream, computed: g is reported from its `def` (2,5) to the end of line 4, three lines *)
+Example ex2_scan :
+  scan_file LPython ex2 = py_expected_all ex2 ex2ds ex2ds /\
+  scan_file LPython ex2 = OK [mkMeas [102] (mkLoc 1 1) (mkLoc 5 13) 2; mkMeas [103] (mkLoc 2 5) (mkLoc 4 17) 3].
+Proof. vm_compute. split; reflexivity. Qed.
